@@ -14,6 +14,7 @@ import RSVerif.Model.EngineSeq
 import RSVerif.Model.TableInit
 import RSVerif.Model.SimdBlock
 import RSVerif.Model.Flat
+import RSVerif.Model.FlatEngine
 
 open RS
 
@@ -382,6 +383,27 @@ def handle (st : Session) (line : String) : Session × String :=
         | _ => "bad-op"
       (st, r)
     | _, _, _, _ => (st, "bad-op")
+  | ["T", "flatfft", sched, dir, count, len64, pos, size, trunc, delta, dat] =>
+    -- a whole fft / ifft of one engine family on the flat working memory (Model/FlatEngine.lean)
+    match parseSched sched, count.toNat?, len64.toNat?, pos.toNat?, size.toNat?, trunc.toNat?, delta.toNat?, parseHex dat with
+    | some s, some count, some len64, some pos, some size, some trunc, some delta, some b =>
+      let f : Flat := ⟨count, len64, blocksOfBytes b⟩
+      let r := if dir = "fft" then flatFft s f pos size trunc delta else flatIfft s f pos size trunc delta
+      (match r with
+       | some g => (st, toHex (bytesOfBlocks g.data))
+       | none => (st, "panic"))
+    | _, _, _, _, _, _, _, _ => (st, "bad-op")
+  | ["T", "flatenc", sched, rate, k, r, len64, dat] =>
+    -- `{High,Low}RateEncoder::encode` on the flat working memory (work_count shards of len64 blocks)
+    match parseSched sched, k.toNat?, r.toNat?, len64.toNat?, parseHex dat with
+    | some s, some k, some r, some len64, some b =>
+      let wc := if rate = "high" then highEncWorkCount k r else lowEncWorkCount k r
+      let f : Flat := ⟨wc, len64, blocksOfBytes b⟩
+      let res := if rate = "high" then flatEncodeHigh s f k r else flatEncodeLow s f k r
+      (match res with
+       | some g => (st, toHex (bytesOfBlocks (g.data.extract 0 (r * len64))))
+       | none => (st, "panic"))
+    | _, _, _, _, _ => (st, "bad-op")
   | ["T", "evalpoly", trunc, marks] =>
     -- marks: comma-separated marked positions; answer: the 65536 logs, comma-separated
     match trunc.toNat?, (splitList marks).mapM (·.toNat?) with
